@@ -824,6 +824,7 @@ func (s *Scanner) tokSEMICOLON() token.Token {
 // and thus relative to the file set.
 func (s *Scanner) Scan() (pos token.Pos, tok token.Token, lit string) {
 scanAgain:
+	unitEnd := s.offset // a pending unit ends where the number ended, before any blanks
 	s.skipWhitespace()
 
 	// current token start
@@ -833,7 +834,7 @@ scanAgain:
 	insertSemi := false
 	if s.unitVal != "" { // number with unit
 		insertSemi = true
-		pos -= token.Pos(len(s.unitVal))
+		pos = s.file.Pos(unitEnd - len(s.unitVal))
 		tok, lit = token.UNIT, s.unitVal
 		s.unitVal = ""
 		goto done
